@@ -131,7 +131,7 @@ func rulesCanonical(c *Ctx, r *Report) {
 		}
 	}
 	src := s.expr(rc.Call.Args[1]).String()
-	r.check(fresh && src == "load(FV:seq)", "CS-RC", where, "reverse complement", c.pos(rc.Pos()),
+	r.check(fresh && isOuterParam(src, 0), "CS-RC", where, "reverse complement", c.pos(rc.Pos()),
 		"rc = ReverseComplement(empty fresh slice, seq)", fmt.Sprintf("rc is ReverseComplement(%s, %s): not the reverse complement of exactly seq", s.expr(rc.Call.Args[0]), src))
 
 	// the window selection
@@ -149,7 +149,7 @@ func rulesCanonical(c *Ctx, r *Report) {
 	// identify which is the seq window and which the rc window
 	var ws, wr *ssa.Slice
 	for _, w := range []*ssa.Slice{w1, w2} {
-		if s.expr(w.X).String() == "load(FV:seq)" {
+		if isOuterParam(s.expr(w.X).String(), 0) {
 			ws = w
 		} else if w.X == ssa.Value(rc) {
 			wr = w
@@ -177,7 +177,10 @@ func rulesCanonical(c *Ctx, r *Report) {
 		}
 		return linSub(linOf(s.expr(v)), linOf(i)).String()
 	}
-	kAtom := "load(FV:k)"
+	kAtom := s.expr(f.FreeVars[freeVarIndex(f, "k")]).String()
+	if ld := loadOfFreeVar(f, "k"); ld != nil {
+		kAtom = s.expr(ld).String()
+	}
 	nRC := "builtin:len(" + s.expr(rc).String() + ")"
 	// seq[i : i+k]
 	r.check(lin(ws.High) == "1*"+kAtom+" + 0", "CS-WIN", where, "seq window", c.pos(ws.Pos()), "item i is taken from seq[i : i+k]", "seq window is [i : i + ("+lin(ws.High)+")], want [i : i+k]")
@@ -243,7 +246,11 @@ func rulesCanonical(c *Ctx, r *Report) {
 		r.check(bad == "", "CS-MIN", where, "selection", c.pos(phi.Pos()), "for each outcome of bytes.Compare (-1, 0, 1) the lexicographically smaller window is yielded", "not the minimum:"+bad)
 	}
 	// CS-COUNT: trip count len(seq)-k+1, loop entered unconditionally, one yield per iteration
-	wantN := linForm{coef: map[string]int64{"builtin:len(load(FV:seq))": 1, kAtom: -1}, k: 1}.String()
+	seqAtom := "^P0"
+	if ld := loadOfFreeVar(f, "seq"); ld != nil {
+		seqAtom = s.expr(ld).String()
+	}
+	wantN := linForm{coef: map[string]int64{"builtin:len(" + seqAtom + ")": 1, kAtom: -1}, k: 1}.String()
 	gotN := linOf(s.expr(loop.bound)).String()
 	r.check(gotN == wantN, "CS-COUNT", where, "trip count", c.pos(iphi.Pos()), "the loop runs for i = 0 .. len(seq)-k", "the loop bound is "+gotN+", want "+wantN+" (= len(seq)-k+1 items)")
 	// every return is dominated by a loop guard (no early exit before the loop)
@@ -355,4 +362,34 @@ func earlyExitHarmless(s *symb, blk *ssa.BasicBlock, bound ssa.Value) bool {
 		}
 	}
 	return d.k >= 0
+}
+
+// isOuterParam: the rendered expression is parameter idx of the enclosing function (captured, assigned once).
+func isOuterParam(str string, idx int) bool {
+	return str == fmt.Sprintf("^P%d", idx)
+}
+
+func freeVarIndex(f *ssa.Function, name string) int {
+	for i, fv := range f.FreeVars {
+		if fv.Name() == name {
+			return i
+		}
+	}
+	return 0
+}
+
+// loadOfFreeVar returns some load of the captured variable with the given name (nil if none).
+func loadOfFreeVar(f *ssa.Function, name string) ssa.Value {
+	var out ssa.Value
+	for _, fv := range f.FreeVars {
+		if fv.Name() != name {
+			continue
+		}
+		for _, ref := range *fv.Referrers() {
+			if u, ok := ref.(*ssa.UnOp); ok && u.Op == token.MUL && out == nil {
+				out = u
+			}
+		}
+	}
+	return out
 }
